@@ -131,6 +131,9 @@ def run(ctx: Ctx):
     every_state_has_a_deadline(ctx, "C14-R9")
     from .common_node import socket_close_confined
     socket_close_confined(ctx, "C14-R10")
+    # writer, readers and purge of the flat transaction tables agree on the key
+    from .common_node import transaction_table_keys
+    transaction_table_keys(ctx, "C14-R11")
 
 
 def _origin_tag(chain: list[str]) -> str:
